@@ -26,9 +26,11 @@ def tlc_model(tier, out):
     return res
 
 
-def validate_trace(chk, path, name):
-    """Run Trace_Seqs over the recorded trace; a rejected record becomes a violation, is removed,
-    and validation goes on (at most a few rounds). Returns the number of accepted records."""
+def validate_trace(chk, path, name, module="Trace_Seqs", sigfn=None, what="recorded runs"):
+    """Run the trace specification over the recorded trace; a rejected record becomes a violation, is
+    skipped, and validation goes on behind it (at most a few rounds). Returns the number of accepted
+    records."""
+    sigfn = sigfn or (lambda bad: signature(bad.get("op"), bad))
     rows = C.read_ndjson(path)
     accepted = 0
     for rnd in range(6):
@@ -36,23 +38,21 @@ def validate_trace(chk, path, name):
             break
         cur = path + ".cur"
         C.write_ndjson(cur, rows)
-        res = C.run_tlc("Trace_Seqs", "Trace_Seqs.cfg", workers=1, timeout=1800, dfs=True,
+        res = C.run_tlc(module, module + ".cfg", workers=1, timeout=1800, dfs=True,
                         env_extra={"VERIF_IN": cur}, name="%s_%d" % (name, rnd))
-        chk.add_tlc("Trace_Seqs", res, "trace validation of %d recorded runs" % len(rows))
+        chk.add_tlc(module, res, "trace validation of %d %s" % (len(rows), what))
         if "ACCEPTED" in res.out and not res.violated:
             accepted += len(rows)
             return accepted
         rej = [ln for ln in res.out.splitlines() if ln.startswith('<<"REJECTED"')]
         if not rej:
-            C.require_tlc_ok(res, "Trace_Seqs")
-            raise C.ToolError("Trace_Seqs neither accepted nor rejected the trace")
+            C.require_tlc_ok(res, module)
+            raise C.ToolError(module + " neither accepted nor rejected the trace")
         d = int(rej[0].split(",")[1].strip(" >"))      # first record (1-based) that no step accepts
-        bad = rows[d - 1]
+        bad = dict(rows[d - 1])
         accepted += d - 1
-        sig = signature(bad.get("op"), bad)
-        bad = dict(bad)
-        bad["note"] = "recorded outcome `got` is not the one spec/Seqs.tla demands (Trace_Seqs rejected it)"
-        chk.violation(sig, bad)
+        bad["note"] = "the recorded outcome is not the one the specification demands (%s rejected it)" % module
+        chk.violation(sigfn(bad), bad)
         rows = rows[d:]
     return accepted
 
